@@ -3,12 +3,13 @@
 #include "sweep.h"
 
 static const cat_var_type T[5] = {CAT_VAR_INT_DEC, CAT_VAR_UINT_DEC, CAT_VAR_NUM_HEX, CAT_VAR_BUF_HEX, CAT_VAR_BUF_STRING};
-static const int SZ[5] = {2, 1, 4, 3, 6};
+static const int SZ0[5] = {2, 1, 4, 3, 6}, SZ1[5] = {4, 2, 8, 48, 40};     /* profile 1: buffers beyond 32 bytes */
+static const int *SZ = SZ0;
 static const char *GOOD[5] = {"-12", "200", "0xBEEF01", "A1b2C3", "\"hi\\\"x\""};
 static const char *BAD[5] = {"1x", "-1", "0x", "A1b", "\"hi"};
 static const char *OVER[5] = {"32768", "256", "0x100000000", "A1B2C3D4", "\"toolong\""};
 
-static int g_cap = 96;
+static int g_cap = 96, g_rcb;
 static void build(const int ty[3], const int acc[3], int hmask, int need_all, int shared)
 {
         struct wcmd *c = sw_table(1);
@@ -20,6 +21,7 @@ static void build(const int ty[3], const int acc[3], int hmask, int need_all, in
                 memset(&c[0].var[i], 0, sizeof c[0].var[i]);
                 c[0].var[i].type = T[ty[i]]; c[0].var[i].size = (uint8_t)SZ[ty[i]]; c[0].var[i].access = (cat_var_access)acc[i];
                 c[0].var[i].wcb = 1;
+                c[0].var[i].rcb = (uint8_t)g_rcb;
         }
         sw_caps(g_cap, shared);
         W.line_max = 160;
@@ -63,6 +65,8 @@ int main(int argc, char **argv)
                 for (int fi = 0; fi < 4; fi++)
                 for (int na = 0; na < 2; na++) {
                         W.wo_fill = FILLS[fi];
+                        /* variable read callbacks on/off; strings filling their storage completely (no terminator inside) on/off */
+                        g_rcb = (fi ^ na) & 1; W.str_full = (fi >> 1) & 1;
                         build(ty, acc, hmask, na, fi & 1);
                         snprintf(SW.extra, sizeof SW.extra, "types=%d,%d,%d access=%d,%d,%d handlers=%d need_all=%d wo_fill=0x%02x", ty[0], ty[1], ty[2], acc[0], acc[1], acc[2], hmask, na, FILLS[fi]);
                         if (run("AT+A?\n")) goto out;
@@ -73,6 +77,15 @@ int main(int argc, char **argv)
                                         if (run("AT+A?\n")) goto out;
                                 }
                                 g_cap = 96;
+                                build(ty, acc, hmask, na, fi & 1);
+                        }
+                        if (fi == 0) {
+                                /* large variables (hex buffer 48, string 40): READ, TEST and both event paths */
+                                SZ = SZ1; g_cap = 250; W.line_max = 420;
+                                build(ty, acc, hmask, na, na);
+                                int bad = run("AT+A?\n") || run("AT+A=?\n");
+                                SZ = SZ0; g_cap = 96;
+                                if (bad) goto out;
                                 build(ty, acc, hmask, na, fi & 1);
                         }
                         if (run("AT+A=?\n")) goto out;
@@ -104,7 +117,7 @@ int main(int argc, char **argv)
                 if (sw_expired()) goto out;
         }
 out:;
-        W.wo_fill = 0;
+        W.wo_fill = 0; W.str_full = 0;
         char tag[64];
         snprintf(tag, sizeof tag, "access-%d", SW.shard);
         return sw_finish(tag);
